@@ -344,8 +344,14 @@ fn open_body(masked: bool) {
         assert!(e.statx_seen && e.statfs_seen);
         assert!(e.f_type == 0x9fa0);
         if !masked {
-            let reported = if e.mnt_mask & 0x5000 != 0 { Some(e.mnt_id) } else { None };
-            assert!(reported == hmnt);
+            if e.statx_ok {
+                let reported = if e.mnt_mask & 0x5000 != 0 { Some(e.mnt_id) } else { None };
+                assert!(reported == hmnt);
+            } else {
+                // statx unsupported (ENOSYS/EINVAL): only a handle that has no
+                // mount id either (pre-5.8 kernel) accepts, on fstype alone
+                assert!(hmnt.is_none());
+            }
         }
     }
     if !masked {
